@@ -298,3 +298,94 @@ PROPS['C02'] = {
     'level': 'Static scale/flag analysis of the fixed-point product coroutines. Decides the structural part of "within one unit": exactly one scaling '
              'step of the right size per product. Numeric error bounds are not claimed.',
 }
+
+from . import rules_cf as cf
+from . import rules_op as op
+from . import rules_sg as sg
+
+PROPS['C17'] = {
+    'rules': [R(cf.rule_PF1)],
+    'floors': {'PF1': 8},
+    'explanation': 'Purity and reduction clauses of thresha.PRF: __call__ reads only key, bound, byte_length and its arguments, writes no attribute '
+                   'and touches no entropy/time/global source (effect analysis), expands exactly XOF(key || input), reduces every produced block '
+                   'modulo the bound (or yields the constant 0 for bound 1), produces exactly n / prod(shape) values and returns a scalar only for '
+                   'n=None; __init__ sizes the block from (bound-1).bit_length() and adds key-length bytes exactly for non powers of two (exact test).',
+    'assumptions': ['hashlib.shake_128 is deterministic'],
+    'level': 'Static effect and structure analysis of the PRF class. Decides determinism (no state, no entropy) and that every output passes through '
+             '`% bound`; statistical closeness of non-power-of-two bounds is not decided.',
+}
+PROPS['C20'] = {
+    'rules': [R(op.rule_OP1, modules=('finfields', 'gfpx')), R(op.rule_OP2)],
+    'floors': {'OP1': 15, 'OP2': 20},
+    'explanation': 'Operator-table clauses: for every class of finfields and gfpx the reflected operator of a non-commutative operation applies the same '
+                   'primitive with (other, self) order and is not an alias of the forward one; comparison mirrors swap (OP1). Every in-place '
+                   'operator that writes self.value reduces it modulo the field modulus before returning self (or stores the result of the helper the '
+                   'forward operator trusts), the constructors reduce, and binary operators build results through the reducing constructor (OP2).',
+    'assumptions': ['the primitives (_sub, _mod, powmod, invert ...) are correct: field axioms are not decided'],
+    'level': 'Static sibling-agreement analysis of the operator tables of the field element, field array and polynomial classes. Decides the '
+             'statement\'s clauses "in-place and reflected operators agree with binary ones" and "values stay reduced"; not the field axioms.',
+}
+PROPS['C22'] = {
+    'rules': [R(op.rule_OP3)],
+    'floors': {'OP3': 11},
+    'explanation': 'Writer/reader agreement of the byte encoding (same width attribute, same byte order, width = ceil(order.bit_length()/8) in both '
+                   'field factories), pickle reconstruction arguments matching the factory chain createGF -> pGF/xGF in arity and order, pickled state '
+                   'naming the slot `value`, field factories cached without bound (class identity = field identity), signed/unsigned views selected by '
+                   'is_signed with the signed representative subtracting the modulus above modulus/2.',
+    'assumptions': ['int.to_bytes / int.from_bytes are inverse for equal width and byte order'],
+    'level': 'Static writer/reader agreement check over finfields. Decides the structural conditions for round trips for every field and length.',
+}
+PROPS['C23'] = {
+    'rules': [R(op.rule_OP1, modules=('gfpx',)), R(op.rule_OP4)],
+    'floors': {'OP1': 10, 'OP4': 25},
+    'explanation': 'Sibling clauses only: reflected polynomial operators apply the same primitive with swapped operands, comparison mirrors swap (OP1); '
+                   'every Polynomial primitive that touches the coefficient-list representation is overridden or aliased in BinaryPolynomial, and the '
+                   'public wrappers hand their operands to the primitive of the same name in the same order (OP4).',
+    'assumptions': ['the primitives themselves implement the ring operations correctly: not decided'],
+    'level': 'Static override/agreement analysis of gfpx.Polynomial and BinaryPolynomial. Decides the clause "binary and generic representation agree" '
+             'structurally (no primitive silently falls back to list code) and operand order of reflected operators; not the ring laws.',
+}
+PROPS['C26'] = {
+    'rules': [R(cf.rule_CF3), R(cf.rule_CF4), R(cf.rule_CF2)],
+    'floors': {'CF3': 3, 'CF4': 3, 'CF2': 7},
+    'explanation': 'Secure-type side and Blum clause: the bit length requested for generated primes and the acceptance bound for user primes agree and '
+                   'equal l+f+k+2 as linear forms (CF3); every search step in find_prime_root is a multiple of 4 and of 2n and the n <= 2 search '
+                   'tests p % 4 != 3, so a requested Blum prime stays 3 mod 4 (CF4); the field of every secure type is compared with the number of '
+                   'parties (CF2). Primality and root order are number theory and not decided.',
+    'assumptions': ['gmpy2/stub is_prime, prev_prime are correct (C25)'],
+    'level': 'Static linear-form / modular-step analysis of sectypes._pfield and finfields.find_prime_root. Decides size agreement and the Blum '
+             'invariant of the search loop; not primality.',
+}
+PROPS['C28'] = {
+    'rules': [R(ss.rule_SS4), R(cf.rule_G1), R(pc.rule_PC1), R(op.rule_OP1, modules=('secgroups', 'fingroups'))],
+    'floors': {'SS4': 9, 'G1': 10, 'PC1': 40, 'OP1': 1},
+    'explanation': 'Convention clauses: both public-base exponentiations weight the local share with the Lagrange coefficient of point pid+1 among 1..m '
+                   'at 0 (SS4), collect the contributions of all parties (default input / all-to-all transfer) and combine them with the group '
+                   'operation, reduce exponents of lifted fields modulo the characteristic, and run under their own program counter (G1, PC1); '
+                   'operators of secure/plain groups apply the group operation in (self, other) order (OP1).',
+    'assumptions': ['plain group arithmetic is correct (C27)'],
+    'level': 'Static convention analysis of mpyc.secgroups -- exactly the recombination trick the single-party suite cannot exercise.',
+}
+PROPS['C37'] = {
+    'rules': [R(sg.rule_TC1), R(sg.rule_SG1), R(sg.rule_SG2), R(pc.rule_PC1), R(pa.rule_SS1), R(pa.rule_NL1), R(ss.rule_SS3), R(ss.rule_SS7), R(ss.rule_PR1), R(fx.rule_FX1), R(fx.rule_FX3)],
+    'floors': {'TC1': 10, 'SG1': 10, 'SG2': 1, 'PC1': 40, 'SS1': 60, 'NL1': 25, 'SS3': 9, 'SS7': 8, 'PR1': 12, 'FX1': 60, 'FX3': 15},
+    'explanation': 'Sibling and plumbing clauses for code the suite cannot even import (no numpy): array coroutines agree with their scalar siblings on '
+                   'mask bounds (as linear forms), opening thresholds, option/field-size case splits, PRSS calls and head-room (SG1); a type that is an '
+                   'array type is never tested against a scalar secure class (TC1); integral= is passed to polymorphic constructors only under a '
+                   'fixed-point guard (SG2); the np_* coroutines satisfy the pc, degree, linearity and flag rules (PC1, SS1, NL1, FX1, FX3); array '
+                   'sharing, recombination and PRSS agree with the list versions (SS3, SS7, PR1).',
+    'assumptions': ['numpy semantics of the array operations (broadcasting, matmul) are as documented'],
+    'level': 'Static sibling-agreement and typestate analysis of the np_* half of the runtime. Found three genuine defects (np_roll without pc, '
+             'integral= for integer arrays, np_trunc head-room), all repaired.',
+}
+PROPS['C39'] = {
+    'rules': [R(cf.rule_CF1), R(cf.rule_CF2)],
+    'floors': {'CF1': 2, 'CF2': 8},
+    'explanation': 'setup() constructs the runtime only after a check that implies 2t < m (compared as linear inequalities, including the //2 forms) and '
+                   'the default threshold is (m-1)//2 (CF1); a field is used without lifting only if t == 0 or m < q, the lifted extension degree '
+                   'e = ceil(log_q(X)) has X >= m+1 so that q**e > m, lifted types keep the requested field as subfield and convert outputs back '
+                   '(scalar and array), SecFld computes order = char**ext_deg, asserts min_order <= order and rejects inconsistent argument '
+                   'combinations, and _pfield compares the prime field with the number of parties (CF2).',
+    'assumptions': ['interpreter is not run with -O (the threshold guard is an assert): interpreter flags are outside the property\'s quantifier'],
+    'level': 'Static guard/dominance analysis with linear-inequality normalisation. Decides that every configuration path reaches the size guards.',
+}
